@@ -2,7 +2,8 @@
 """regenerate MANIFEST.json from lib/props.json (single source of truth for the claimed checks)"""
 import json, os
 ROOT = os.path.dirname(os.path.dirname(os.path.abspath(__file__)))
-props = json.load(open(os.path.join(ROOT, "lib", "props.json")))
+import glob
+props = {os.path.basename(f)[:-5]: json.load(open(f)) for f in glob.glob(os.path.join(ROOT, "lib", "props.d", "*.json"))}
 allids = [json.loads(l)["id"] for l in open(os.path.join(ROOT, "properties.jsonl"))]
 hooks = [l.strip() for l in open(os.path.join(ROOT, "MANIFEST.hooks")) if l.strip() and not l.startswith("#")] \
     if os.path.exists(os.path.join(ROOT, "MANIFEST.hooks")) else []
